@@ -480,6 +480,29 @@ def short_run_oracle(args):
     return None
 
 
+def stiff_oracle(args):
+    """stiff local steps (large coupling x time step: the local Krylov solves need many vectors), unconstrained bonds: norm, energy and
+    final state against exp(-iHT)"""
+    from mqt.yaqs.core.data_structures.networks import MPO, MPS
+
+    L, J, g, dt, T = args["L"], args["J"], args["g"], args["dt"], args["T"]
+    H, hd = MPO.ising(L, J, g), dense.ising(L, J, g)
+    v0 = dense.mps_dense(MPS(L, state=args["state"]))
+    v0 /= np.linalg.norm(v0)
+    ref = dense.evolve(hd, v0, T)
+    for order in (1, 2):
+        _, vT = evolve_real(L, H, args["state"], dt, T, order, "TDVP")
+        tag = f"stiff Ising chain J={J} g={g} L={L} dt={dt} TDVP order {order}"
+        if abs(np.linalg.norm(vT) - 1) > 1e-8:
+            return f"{tag}: norm of the final state is {np.linalg.norm(vT):.8f}"
+        if abs(dense.expect(vT, hd) - dense.expect(v0, hd)) > 1e-6 * np.linalg.norm(hd, 2):
+            return f"{tag}: energy drifts from {dense.expect(v0, hd):.8f} to {dense.expect(vT, hd):.8f}"
+        err = dense.up_to_phase(vT, ref)
+        if err > 5e-3:
+            return f"{tag}: final state is {err:.3e} away from exp(-iHT)|psi0> with unconstrained bonds"
+    return None
+
+
 def qudit_oracle(args):
     """chains of three-level sites (Bose-Hubbard, transmon-resonator chains) with the default, unconstrained bond dimension: norm, energy and
     final state vs exp(-iHT) of the operator's own dense matrix (site 0 leftmost, as C07 establishes for the builders)"""
@@ -547,6 +570,19 @@ def search(ctx):
     for k in range(ctx.scale(1, 4)):
         plan.append(dict(seed=int(ctx.rng.integers(0, 2**31)), L=8, ham="pauli", state=["Neel", "x+"][k % 2], mode="TDVP", order=1 + k % 2, T=1.2, wide=True))
         ctx.count("wide_chains")
+    for k, a in enumerate([dict(L=6, J=4.0, g=2.8, dt=0.2, T=0.4, state="wall"), dict(L=8, J=1.0, g=0.7, dt=0.5, T=1.0, state="zeros")][: 1 if ctx.quick else 2]):
+        try:
+            with common.time_limit(300):
+                why = stiff_oracle(a)
+        except common.HardTimeout:
+            ctx.notes.append("stiff oracle timed out")
+            continue
+        except Exception as e:  # noqa: BLE001
+            why = f"simulator.run raised {type(e).__name__}: {e}"
+        ctx.case(nontrivial_key=("stiff", k))
+        ctx.count("stiff_local_steps")
+        if why:
+            ctx.violation("stiff-steps", why, {"oracle": "stiff", "args": a})
     for k in range(ctx.scale(1, 6)):
         a = dict(seed=int(ctx.rng.integers(0, 2**31)), L=int(ctx.rng.integers(2, 5)), ham=["ising", "heisenberg", "pauli"][k % 3], state=["wall", "x+", "Neel"][k % 3])
         try:
@@ -596,6 +632,8 @@ def search(ctx):
 
 def replay(ctx, data):
     rp = data.get("replay", data)
+    if rp.get("oracle") == "stiff":
+        return stiff_oracle(rp["args"])
     if rp.get("oracle") == "short":
         return short_run_oracle(rp["args"])
     if rp.get("oracle") == "conv":
